@@ -325,7 +325,7 @@ func c01LanePipe(t *testing.T, s *c01Sess, profile string, n int) {
 		if c01RawPathDropped(tc.u, req, err) {
 			class = "rawpath-dropped"
 		}
-		if tc.bodyKind == "reader" && class == "" {
+		if tc.bodyKind == "reader" {
 			// known finding C01-2: a one-shot reader reaches the transport with a GetBody that
 			// hands out the same reader again (the model follows the repaired Client.roundTrip)
 			class = "oneshot-body-replayed"
